@@ -241,7 +241,7 @@ def marks(pb, thorough):
 
 def run(ctx):
     thorough = ctx.tier == "thorough"
-    alpha = "abc" if thorough else "ab"
+    alpha = ("abcd" if ctx.deep else "abc") if thorough else "ab"
     wl = [w for w in core.words(3, alpha, 1)]
     cfgs = [Cfg(0, b"", 0, 3, 1), Cfg(2, b"", 0, 3, 1)] + ([Cfg(2, D, 0, 3, 1)] if thorough else [])
     specs = [(w, c) for c in cfgs for w in wl]
